@@ -265,3 +265,68 @@ Proof.
   eapply (walk_no_loop_upd L decompress pgp_verify w Hw ed _ _ _ _ _ _ _ _ Ew (walk_top_no_trailing _ Hp)); cbn [us_ids us_ed];
     [intros k P Hk; discriminate|apply ed_sub_refl|exact Hr].
 Qed.
+
+(* structural errors of the other two walks: a directory whose identity is recorded for one of the directories passed on the way to
+   it ends the scan for unregistered Manifests and the update / create walk with the symlink-loop error, a directory on another
+   device ends them with the cross-device error in one-file-system mode - before anything in it is read or written *)
+Lemma update_walk_loop_raised (L : hashlib) decompress pgp_verify f w X rel nm hashes lm s ents dst :
+  p_scandir w X = Ok ents -> p_stat w X = Ok dst ->
+  (match l_dev (us_l s) with Some d => negb (st_dev dst =? d) | None => false end) = false ->
+  In (st_dev dst, st_ino dst) (match assoc (dirname X) (us_ids s) with Some x => x | None => [] end) ->
+  walk_update L decompress pgp_verify (S f) w X rel nm hashes lm s = Err (XSymlinkLoop X).
+Proof.
+  intros Hs Ht Hd Hin. cbn [walk_update]. rewrite Hs. cbn [bind]. rewrite Ht. cbn [bind]. rewrite Hd.
+  assert (E : existsb (fun x => (fst x =? fst (st_dev dst, st_ino dst)) && (snd x =? snd (st_dev dst, st_ino dst)))
+                      (match assoc (dirname X) (us_ids s) with Some x => x | None => [] end) = true).
+  { apply existsb_exists. exists (st_dev dst, st_ino dst). split; [exact Hin|]. cbn. rewrite !N.eqb_refl. reflexivity. }
+  rewrite E. reflexivity.
+Qed.
+
+Lemma update_walk_xdev_raised (L : hashlib) decompress pgp_verify f w X rel nm hashes lm s ents dst d :
+  p_scandir w X = Ok ents -> p_stat w X = Ok dst -> l_dev (us_l s) = Some d -> st_dev dst <> d ->
+  walk_update L decompress pgp_verify (S f) w X rel nm hashes lm s = Err (XCrossDevice X).
+Proof.
+  intros Hs Ht Hc Hd. cbn [walk_update]. rewrite Hs. cbn [bind]. rewrite Ht. cbn [bind]. rewrite Hc.
+  assert (negb (st_dev dst =? d) = true) as -> by (apply negb_true_iff; apply N.eqb_neq; exact Hd). reflexivity.
+Qed.
+
+Lemma unreg_walk_loop_raised (L : hashlib) decompress pgp_verify f w l X rel ids ed found ents dst :
+  p_scandir w X = Ok ents -> p_stat w X = Ok dst ->
+  (match l_dev l with Some d => negb (st_dev dst =? d) | None => false end) = false ->
+  In (st_dev dst, st_ino dst) (match assoc (dirname X) ids with Some x => x | None => [] end) ->
+  walk_unreg L decompress pgp_verify (S f) w l X rel ids ed found = Err (XSymlinkLoop X).
+Proof.
+  intros Hs Ht Hd Hin. cbn [walk_unreg]. rewrite Hs. cbn [bind]. rewrite Ht. cbn [bind]. rewrite Hd.
+  assert (E : existsb (fun x => (fst x =? fst (st_dev dst, st_ino dst)) && (snd x =? snd (st_dev dst, st_ino dst)))
+                      (match assoc (dirname X) ids with Some x => x | None => [] end) = true).
+  { apply existsb_exists. exists (st_dev dst, st_ino dst). split; [exact Hin|]. cbn. rewrite !N.eqb_refl. reflexivity. }
+  rewrite E. reflexivity.
+Qed.
+
+Lemma unreg_walk_xdev_raised (L : hashlib) decompress pgp_verify f w l X rel ids ed found ents dst d :
+  p_scandir w X = Ok ents -> p_stat w X = Ok dst -> l_dev l = Some d -> st_dev dst <> d ->
+  walk_unreg L decompress pgp_verify (S f) w l X rel ids ed found = Err (XCrossDevice X).
+Proof.
+  intros Hs Ht Hc Hd. cbn [walk_unreg]. rewrite Hs. cbn [bind]. rewrite Ht. cbn [bind]. rewrite Hc.
+  assert (negb (st_dev dst =? d) = true) as -> by (apply negb_true_iff; apply N.eqb_neq; exact Hd). reflexivity.
+Qed.
+
+Lemma update_walks_raise : forall (L : hashlib) decompress pgp f w X rel nm hashes lm s ents dst,
+  p_scandir w X = Ok ents -> p_stat w X = Ok dst ->
+  (In (st_dev dst, st_ino dst) (match assoc (dirname X) (us_ids s) with Some x => x | None => [] end) ->
+   (match l_dev (us_l s) with Some d => negb (st_dev dst =? d) | None => false end) = false ->
+   walk_update L decompress pgp (S f) w X rel nm hashes lm s = Err (XSymlinkLoop X)) /\
+  (forall d, l_dev (us_l s) = Some d -> st_dev dst <> d ->
+   walk_update L decompress pgp (S f) w X rel nm hashes lm s = Err (XCrossDevice X)) /\
+  (forall l ids ed found, In (st_dev dst, st_ino dst) (match assoc (dirname X) ids with Some x => x | None => [] end) ->
+   (match l_dev l with Some d => negb (st_dev dst =? d) | None => false end) = false ->
+   walk_unreg L decompress pgp (S f) w l X rel ids ed found = Err (XSymlinkLoop X)) /\
+  (forall l ids ed found d, l_dev l = Some d -> st_dev dst <> d ->
+   walk_unreg L decompress pgp (S f) w l X rel ids ed found = Err (XCrossDevice X)).
+Proof.
+  intros L decompress pgp f w X rel nm hashes lm s ents dst Hs Ht. split; [|split; [|split]].
+  - intros Hin Hd. eapply update_walk_loop_raised; eassumption.
+  - intros d Hc Hd. eapply update_walk_xdev_raised; eassumption.
+  - intros l ids ed found Hin Hd. eapply unreg_walk_loop_raised; eassumption.
+  - intros l ids ed found d Hc Hd. eapply unreg_walk_xdev_raised; eassumption.
+Qed.
